@@ -40,7 +40,25 @@ import (
 var armed sync.Map // int64 (UnixNano of the scheduled time) -> chan struct{}
 var armSeq atomic.Int64
 
+// addArmed: UnixNano of the scheduled time -> *addGate (Queue.Add parks between its shutdown check and the insertion)
+var addArmed sync.Map
+
+type addGate struct {
+	entered chan struct{}
+	release chan struct{}
+}
+
 func init() {
+	timed.VerifAddHook = func(t time.Time) {
+		if v, ok := addArmed.Load(t.UnixNano()); ok {
+			g := v.(*addGate)
+			close(g.entered)
+			select {
+			case <-g.release:
+			case <-time.After(30 * time.Second):
+			}
+		}
+	}
 	timed.VerifPollHook = func(t time.Time) {
 		if v, ok := armed.Load(t.UnixNano()); ok {
 			select {
@@ -1105,6 +1123,77 @@ func runBurst(r *hx.Run, sub uint64, fl string, workers, k, reps int) {
 	r.Nontrivial(fmt.Sprintf("burst-%s-%d-%d", fl, workers, k))
 }
 
+// runAddRace: forced schedule through the verif hook in Queue.Add.  ExecuteAt passes the shutdown check, then
+// Shutdown() runs (as far as it can), then the element is inserted.  An element whose ExecuteAt returned non-nil
+// and that is neither cancelled nor dropped by a flag must still be delivered.
+func runAddRace(r *hx.Run, sub uint64, workers, reps int) {
+	r.Case(sub)
+	op := fmt.Sprintf("addrace %d %d", workers, reps)
+	var fails []finding
+	var evs []string
+	for rep := 0; rep < reps; rep++ {
+		te := timed.NewTaskExecutor[int](workers)
+		time.Sleep(time.Millisecond)
+		base := time.Now()
+		due := base.Add(3*time.Millisecond + time.Duration(1+armSeq.Add(1)%900000)*time.Nanosecond)
+		g := &addGate{entered: make(chan struct{}), release: make(chan struct{})}
+		addArmed.Store(due.UnixNano(), g)
+		var ran atomic.Int32
+		var ranAt atomic.Int64
+		res := make(chan bool, 1)
+		go func() {
+			h := te.ExecuteAt(1, func() { ranAt.Store(time.Since(base).Microseconds()); ran.Add(1) }, due)
+			res <- h != nil
+		}()
+		select {
+		case <-g.entered:
+		case <-time.After(5 * time.Second):
+			fails = append(fails, finding{"harness", "addrace: Queue.Add never reached the hook", map[string]string{"oracle": "harness-timeout", "mode": "addrace"}})
+		}
+		sdDone := make(chan struct{})
+		go func() { te.Shutdown(); close(sdDone) }()
+		select {
+		case <-sdDone:
+		case <-time.After(100 * time.Millisecond):
+		}
+		close(g.release)
+		accepted := <-res
+		addArmed.Delete(due.UnixNano())
+		for i := 0; i < 100 && accepted && ran.Load() == 0; i++ {
+			time.Sleep(5 * time.Millisecond)
+		}
+		select {
+		case <-sdDone:
+		case <-time.After(2 * time.Second):
+			fails = append(fails, finding{"shutdown-returns", "addrace: Executor.Shutdown() did not return", map[string]string{"oracle": "shutdown-hang", "mode": "addrace"}})
+		}
+		evs = append(evs, "shutdown 0 0")
+		if accepted {
+			evs = append(evs, fmt.Sprintf("sched %d 1 %d", rep+1, due.Sub(base).Microseconds()))
+			if ran.Load() == 0 {
+				fails = append(fails, finding{"eventually-delivered", fmt.Sprintf("addrace: ExecuteAt returned a task while Shutdown() was starting (workers=%d); the task was never run although neither cancelled nor dropped by a flag", workers),
+					map[string]string{"oracle": "missing-delivery", "mode": "addrace"}})
+			} else {
+				evs = append(evs, fmt.Sprintf("run %d %d", rep+1, ranAt.Load()))
+			}
+		}
+		r.Count(fmt.Sprintf("addrace-accepted:%v", accepted))
+	}
+	r.Line(op, "done")
+	for _, e := range evs {
+		r.Line("ev "+e, "ok")
+	}
+	r.Line("check", "accept")
+	seen := map[string]bool{}
+	for _, f := range fails {
+		if !seen[f.oracle+f.sig["oracle"]] {
+			seen[f.oracle+f.sig["oracle"]] = true
+			r.Fail(f.oracle, f.detail, f.sig)
+		}
+	}
+	r.Nontrivial(fmt.Sprintf("addrace-%d", workers))
+}
+
 func b2i(b bool) int {
 	if b {
 		return 1
@@ -1172,7 +1261,12 @@ func main() {
 			}
 			keep = append(keep, l)
 		}
-		if len(keep) > 0 && strings.HasPrefix(keep[0], "burst") {
+		if len(keep) > 0 && strings.HasPrefix(keep[0], "addrace") {
+			f := strings.Fields(keep[0])
+			a, _ := strconv.Atoi(f[1])
+			b, _ := strconv.Atoi(f[2])
+			runAddRace(r, r.Seed, a, b)
+		} else if len(keep) > 0 && strings.HasPrefix(keep[0], "burst") {
 			f := strings.Fields(keep[0])
 			a, _ := strconv.Atoi(f[2])
 			b, _ := strconv.Atoi(f[3])
@@ -1241,6 +1335,10 @@ func main() {
 		_, sub := r.Rng.Fork()
 		variant := []string{"cancel", "mixed"}[i%2]
 		runStress(r, sub, variant, 1+i%3, 4, 150)
+	}
+	for _, wk := range []int{1, 2} {
+		_, sub := r.Rng.Fork()
+		runAddRace(r, sub, wk, 5*r.Scale)
 	}
 	for _, fl := range []string{"-", "c", "i", "ci"} {
 		for _, wk := range []int{2, 3} {
